@@ -877,7 +877,7 @@ Proof.
   inversion F as [|? ? F1 F2]; subst. destruct (N.eqb_spec k k') as [->|Hne]; constructor; auto.
 Qed.
 
-Lemma WF_with_shared v st : WF st -> Forall (fun e => fst e < 1000) v -> WF (with_shared v st).
+Lemma WF_with_shared v st : WF st -> Forall (fun e => shkey (fst e)) v -> WF (with_shared v st).
 Proof.
   intros [[Hs Hr Hg Hw] Hn Hf Hsh] Hv. constructor; [constructor| | |exact Hv].
   - eapply WFstruct_mono; [| | | | | |exact Hs]; try reflexivity; lia.
@@ -888,12 +888,12 @@ Proof.
   - exact Hf.
 Qed.
 
-Lemma Guar_with_shared st st' v : Guar st st' -> Forall (fun e => fst e < 1000) v -> Guar st (with_shared v st').
+Lemma Guar_with_shared st st' v : Guar st st' -> Forall (fun e => shkey (fst e)) v -> Guar st (with_shared v st').
 Proof.
   intros [W [B M I K]] Hv. split; [apply WF_with_shared; assumption|]. constructor; assumption.
 Qed.
 
-Lemma shared_key_lt st t b : WF st -> aget t (shared st) = Some b -> t < 1000.
+Lemma shared_key_lt st t b : WF st -> aget t (shared st) = Some b -> shkey t.
 Proof.
   intros H Hg. pose proof (wf_shared _ H) as F. unfold shared_ok in F. rewrite Forall_forall in F.
   exact (F (t, b) (aget_in _ _ _ Hg)).
@@ -915,8 +915,7 @@ Proof.
     destruct (p y); cbn [length]; lia.
 Qed.
 
-Definition is_live (st : state) (e : N * bool) : bool :=
-  match live_track (fst e) st with Some _ => true | None => false end.
+Definition is_live (st : state) (e : N * bool) : bool := key_live (fst e) st.
 Definition lv (st : state) : nat := length (filter (is_live st) (shared st)).
 
 (* ------------------------------------------------------------------ *)
@@ -1278,7 +1277,7 @@ Section Safe.
     | _ => True
     end.
   Proof.
-    intro H. destruct o as [t|t|td ts|td ts|t|t|t|s rk body refs|s rk|sn so|sn so|sd ss|sd ss|s arg catch|s b|s|s|s|g k|gn go|gn go|gd gs|gd gs|g|g s c front mv|g arg catch|g|g b|g|s g|c|cn co|cd cs|c|c b|c|c|k c|k|k c|kn ko|kd ks|k1 k2|k c|k|k b|k|k| | ]; try exact I; cbn [step].
+    intro H. destruct o as [t|t|td ts|td ts|t|t|t|s rk body refs|s rk|sn so|sn so|sd ss|sd ss|s arg catch|s b|s|s|s|g k|gn go|gn go|gd gs|gd gs|g|g|g|g s c front mv|g arg catch|g|g b|g|s g|c|cn co|cd cs|c|c b|c|c|k c|k|k c|kn ko|kd ks|k1 k2|k c|k|k b|k|k| | ]; try exact I; cbn [step].
     - (* OTNew *)
       unfold fresh_track. destruct (aget t (tracks st)) eqn:Hf; cbn [andb]; [apply skip_ok; exact H|].
       destruct (N.ltb_spec t 1000); [|apply skip_ok; exact H].
@@ -1307,7 +1306,7 @@ Section Safe.
       unfold fresh_track. destruct (aget t (tracks st)) eqn:Hf; cbn [andb]; [apply skip_ok; exact H|].
       destruct (N.ltb_spec t 1000); [|apply skip_ok; exact H].
       cbn [out_ok]. apply Guar_with_shared; [apply new_user_track_G; assumption|].
-      apply Forall_aset; [exact (wf_shared _ H)|assumption].
+      apply Forall_aset; [exact (wf_shared _ H)|left; assumption].
     - (* OTRelease *)
       destruct (live_track t st); [|apply skip_ok; exact H].
       unfold is_shared. destruct (aget t (shared st)) as [b|] eqn:Hb; cbn [andb]; [|apply skip_ok; exact H].
@@ -1337,7 +1336,7 @@ Section Safe.
     | _ => True
     end.
   Proof.
-    intro H. pose proof (wf_c _ H) as Hc. destruct o as [t|t|td ts|td ts|t|t|t|s rk body refs|s rk|sn so|sn so|sd ss|sd ss|s arg catch|s b|s|s|s|g k|gn go|gn go|gd gs|gd gs|g|g s c front mv|g arg catch|g|g b|g|s g|c|cn co|cd cs|c|c b|c|c|k c|k|k c|kn ko|kd ks|k1 k2|k c|k|k b|k|k| | ]; try exact I; cbn [step].
+    intro H. pose proof (wf_c _ H) as Hc. destruct o as [t|t|td ts|td ts|t|t|t|s rk body refs|s rk|sn so|sn so|sd ss|sd ss|s arg catch|s b|s|s|s|g k|gn go|gn go|gd gs|gd gs|g|g|g|g s c front mv|g arg catch|g|g b|g|s g|c|cn co|cd cs|c|c b|c|c|k c|k|k c|kn ko|kd ks|k1 k2|k c|k|k b|k|k| | ]; try exact I; cbn [step].
     - (* OSNew *)
       unfold fresh_slot. destruct (aget s (slots st)) eqn:Hf; cbn [andb]; [apply skip_ok; exact H|].
       destruct (forallb _ refs) eqn:Hlive; cbn [andb]; [|apply skip_ok; exact H].
@@ -1405,37 +1404,66 @@ Section Safe.
   Lemma fresh_sig_other st g go gn : live_sig go st = Some g -> aget gn (sigs st) = None -> gn <> go.
   Proof. intros Hl Hf X. subst gn. unfold live_sig in Hl. rewrite Hf in Hl. discriminate. Qed.
 
+  Lemma sig_destroy_full g go st : WF st -> live_sig g st = Some go ->
+    exists st', sig_destroy g go st = Ok st' /\ Guar st st' /\ shared st' = shared st /\
+      (forall g', live_sig g' st' = if N.eqb g' g then None else live_sig g' st) /\
+      (forall t, live_track t st' <> None -> live_track t st <> None) /\
+      (forall t, t <> trackable_of_sig g -> live_track t st <> None -> live_track t st' <> None).
+  Proof.
+    intros H Hl. unfold sig_destroy.
+    assert (Hmid : exists st1, (if gk_track (g_kind go)
+                    then st1 <- track_notify (trackable_of_sig g) st ;;
+                         Ok (with_tracks (aset (trackable_of_sig g) None (tracks st1)) st1)
+                    else Ok st) = Ok st1 /\
+               Guar st (with_sigs (aset g None (sigs st1)) st1) /\ shared st1 = shared st /\ sigs st1 = sigs st /\
+               (forall t, live_track t st1 <> None -> live_track t st <> None) /\
+               (forall t, t <> trackable_of_sig g -> live_track t st <> None -> live_track t st1 <> None)).
+    { destruct (gk_track (g_kind go)) eqn:Hk.
+      - destruct (track_notify_G (trackable_of_sig g) st H) as (sta & E & G & C & D). rewrite E. cbn [rbind].
+        eexists. split; [reflexivity|]. split; [|split; [|split; [|split]]].
+        + eapply Guar_trans; [exact G|].
+          assert (Hla : live_sig g sta = Some go) by (unfold live_sig; rewrite (ca_sigs _ _ C); exact Hl).
+          pose proof (del_sig_G g go sta (proj1 G) Hla (fun _ => D)) as X. rewrite Hk in X. exact X.
+        + cbn [shared with_tracks]. exact (ca_shared _ _ C).
+        + cbn [sigs with_tracks]. exact (ca_sigs _ _ C).
+        + intros t Ht. rewrite live_track_aset in Ht.
+          destruct (N.eqb t (trackable_of_sig g)); [exfalso; apply Ht; reflexivity|].
+          apply (tlive_live _ _ t (ca_tracks _ _ C)). exact Ht.
+        + intros t Hne Ht. rewrite live_track_aset.
+          destruct (N.eqb_spec t (trackable_of_sig g)); [contradiction|].
+          apply (tlive_live _ _ t (ca_tracks _ _ C)). exact Ht.
+      - eexists. split; [reflexivity|]. split; [|auto].
+        pose proof (del_sig_G g go st H Hl) as X. rewrite Hk in X. apply X. discriminate. }
+    destruct Hmid as (st1 & E1 & G2 & Hsh & Hsg & Htr & Htr'). rewrite E1. cbn [rbind].
+    set (st2 := with_sigs (aset g None (sigs st1)) st1) in *.
+    assert (Hls : forall g', live_sig g' st2 = if N.eqb g' g then None else live_sig g' st).
+    { intro g'. unfold st2. rewrite live_sig_aset. unfold live_sig. rewrite Hsg. reflexivity. }
+    destruct (g_impl go) as [i|].
+    - destruct (release_check_ok i st2 (wf_c _ (proj1 G2))) as (st' & E' & W' & F' & D').
+      destruct (release_check_G i _ (proj1 G2)) as (st'' & E'' & G' & _). rewrite E' in E''. inversion E''; subst st''.
+      exists st'. split; [exact E'|]. split; [eapply Guar_trans; eauto|]. split; [|split].
+      + rewrite (fi_shared _ _ _ F'). exact Hsh.
+      + intro g'. unfold live_sig at 1. rewrite (fi_sigs _ _ _ F'). exact (Hls g').
+      + split.
+        * intros t Ht. apply Htr. apply (tlive_live _ _ t (fi_tracks _ _ _ F')) in Ht. exact Ht.
+        * intros t Hne Ht. apply (tlive_live _ _ t (fi_tracks _ _ _ F')). exact (Htr' t Hne Ht).
+    - eexists. split; [reflexivity|]. split; [exact G2|]. split; [exact Hsh|]. split; [exact Hls|]. split; [exact Htr|exact Htr'].
+  Qed.
+
   Lemma sig_destroy_G g go st : WF st -> live_sig g st = Some go ->
     exists st', sig_destroy g go st = Ok st' /\ Guar st st'.
   Proof.
-    intros H Hl. unfold sig_destroy.
-    assert (Hmid : exists st2, (st1 <- (if gk_track (g_kind go)
-                    then st1 <- track_notify (trackable_of_sig g) st ;;
-                         Ok (with_tracks (aset (trackable_of_sig g) None (tracks st1)) st1)
-                    else Ok st) ;; Ok (with_sigs (aset g None (sigs st1)) st1)) = Ok st2 /\ Guar st st2).
-    { destruct (gk_track (g_kind go)) eqn:Hk.
-      - destruct (track_notify_G (trackable_of_sig g) st H) as (sta & E & G & C & D). rewrite E. cbn [rbind].
-        eexists. split; [reflexivity|]. eapply Guar_trans; [exact G|].
-        assert (Hla : live_sig g sta = Some go) by (unfold live_sig; rewrite (ca_sigs _ _ C); exact Hl).
-        pose proof (del_sig_G g go sta (proj1 G) Hla (fun _ => D)) as X. rewrite Hk in X. exact X.
-      - cbn [rbind]. eexists. split; [reflexivity|].
-        pose proof (del_sig_G g go st H Hl) as X. rewrite Hk in X. apply X. discriminate. }
-    destruct Hmid as (st2 & E2 & G2).
-    destruct (if gk_track (g_kind go) then _ else _) as [st1|e]; cbn [rbind] in *; [|discriminate].
-    inversion E2; subst st2.
-    destruct (g_impl go) as [i|].
-    - destruct (release_check_G i _ (proj1 G2)) as (st' & E' & G' & _). exists st'. split; [exact E'|eapply Guar_trans; eauto].
-    - eexists. split; [reflexivity|exact G2].
+    intros H Hl. destruct (sig_destroy_full g go st H Hl) as (st' & E & G & _). exists st'. split; assumption.
   Qed.
 
   Lemma step_sig_ok o st : WF st ->
     match o with
-    | OGNew _ _ | OGCopy _ _ | OGMove _ _ | OGAssign _ _ | OGMoveAssign _ _ | OGDel _
+    | OGNew _ _ | OGCopy _ _ | OGMove _ _ | OGAssign _ _ | OGMoveAssign _ _ | OGShare _ | OGRelease _ | OGDel _
     | OGEmit _ _ _ | OGClear _ | OGBlock _ _ | OGQuery _ | OGMakeSlot _ _ => out_ok st (step prog rec o st)
     | _ => True
     end.
   Proof.
-    intro H. pose proof (wf_c _ H) as Hc. destruct o as [t|t|td ts|td ts|t|t|t|s rk body refs|s rk|sn so|sn so|sd ss|sd ss|s arg catch|s b|s|s|s|g k|gn go|gn go|gd gs|gd gs|g|g s c front mv|g arg catch|g|g b|g|s g|c|cn co|cd cs|c|c b|c|c|k c|k|k c|kn ko|kd ks|k1 k2|k c|k|k b|k|k| | ]; try exact I; cbn [step].
+    intro H. pose proof (wf_c _ H) as Hc. destruct o as [t|t|td ts|td ts|t|t|t|s rk body refs|s rk|sn so|sn so|sd ss|sd ss|s arg catch|s b|s|s|s|g k|gn go|gn go|gd gs|gd gs|g|g|g|g s c front mv|g arg catch|g|g b|g|s g|c|cn co|cd cs|c|c b|c|c|k c|k|k c|kn ko|kd ks|k1 k2|k c|k|k b|k|k| | ]; try exact I; cbn [step].
     - (* OGNew *)
       unfold fresh_sig. destruct (aget g (sigs st)) eqn:Hf; cbn [andb]; [apply skip_ok; exact H|].
       destruct (negb (gk_track k) || fresh_track (trackable_of_sig g) st); [|apply skip_ok; exact H].
@@ -1519,8 +1547,21 @@ Section Safe.
       + destruct (track_notify_G (trackable_of_sig gs) st2 (proj1 G2)) as (st3 & E3 & G3 & _). rewrite E3.
         cbn [liftu lift out_ok]. eapply Guar_trans; eauto.
       + exact G2.
+    - (* OGShare *)
+      destruct (live_sig g st) as [go|] eqn:Hl; [|apply skip_ok; exact H].
+      destruct (negb (is_shared (sig_key g) st)); cbn [andb]; [|apply skip_ok; exact H].
+      destruct (N.ltb_spec g 1000); [|apply skip_ok; exact H].
+      cbn [out_ok]. apply Guar_with_shared; [apply Guar_refl; exact H|].
+      apply Forall_aset; [exact (wf_shared _ H)|]. right. unfold sig_key. cbn [fst]. lia.
+    - (* OGRelease *)
+      destruct (live_sig g st) as [go|] eqn:Hl; [|apply skip_ok; exact H].
+      unfold is_shared. destruct (aget (sig_key g) (shared st)) as [b|] eqn:Hb; cbn [andb]; [|apply skip_ok; exact H].
+      destruct (negb (is_released (sig_key g) st)); [|apply skip_ok; exact H].
+      cbn [out_ok]. apply Guar_with_shared; [apply Guar_refl; exact H|].
+      apply Forall_aset; [exact (wf_shared _ H)|]. exact (shared_key_lt st _ b H Hb).
     - (* OGDel *)
       destruct (live_sig g st) as [go|] eqn:Hl; [|apply skip_ok; exact H].
+      destruct (negb (is_shared (sig_key g) st)); [|apply skip_ok; exact H].
       apply liftu_G. apply sig_destroy_G; assumption.
     - (* OGEmit *)
       destruct (live_sig g st) as [go|] eqn:Hl; [|apply skip_ok; exact H].
@@ -1636,7 +1677,7 @@ Section Safe.
     | _ => True
     end.
   Proof.
-    intro H. pose proof (wf_c _ H) as Hc. destruct o as [t|t|td ts|td ts|t|t|t|s rk body refs|s rk|sn so|sn so|sd ss|sd ss|s arg catch|s b|s|s|s|g k|gn go|gn go|gd gs|gd gs|g|g s c front mv|g arg catch|g|g b|g|s g|c|cn co|cd cs|c|c b|c|c|k c|k|k c|kn ko|kd ks|k1 k2|k c|k|k b|k|k| | ]; try exact I; cbn [step].
+    intro H. pose proof (wf_c _ H) as Hc. destruct o as [t|t|td ts|td ts|t|t|t|s rk body refs|s rk|sn so|sn so|sd ss|sd ss|s arg catch|s b|s|s|s|g k|gn go|gn go|gd gs|gd gs|g|g|g|g s c front mv|g arg catch|g|g b|g|s g|c|cn co|cd cs|c|c b|c|c|k c|k|k c|kn ko|kd ks|k1 k2|k c|k|k b|k|k| | ]; try exact I; cbn [step].
     - (* OCEmpty *)
       destruct (fresh_conn c st); [|apply skip_ok; exact H].
       destruct (set_conn_ok (WC c) None st H) as (st' & E & G); [intros i n X; discriminate|].
@@ -1808,11 +1849,24 @@ Section Safe.
     exists rel, In (t, rel) l /\ is_live st (t, rel) = true.
   Proof.
     induction l as [|[t' rel] l IH]; cbn [find_orphan]; [discriminate|].
-    destruct (rel && match live_track t' st with Some _ => true | None => false end && N.eqb (owner_count prog t' st) 0) eqn:E.
+    destruct (rel && key_live t' st && N.eqb (owner_count prog t' st) 0) eqn:E.
     - intro X. inversion X; subst t'. exists rel. split; [left; reflexivity|].
       apply andb_true_iff in E. destruct E as [E _]. apply andb_true_iff in E. destruct E as [_ E].
       unfold is_live. cbn [fst]. exact E.
     - intro X. destruct (IH X) as (r & Hin & Hl). exists r. split; [right; exact Hin|exact Hl].
+  Qed.
+
+  (* liveness of keys only decreases when sigs and tracks only die *)
+  Lemma key_live_mono st st' k :
+    (forall g, live_sig g st' <> None -> live_sig g st <> None) ->
+    (forall t, live_track t st' <> None -> live_track t st <> None) ->
+    key_live k st' = true -> key_live k st = true.
+  Proof.
+    intros Hs Ht. unfold key_live. destruct (N.leb 2000 k).
+    - specialize (Hs (k - 2000)). destruct (live_sig (k - 2000) st'); [|discriminate].
+      destruct (live_sig (k - 2000) st); [reflexivity|]. intros _. exfalso. apply Hs; [discriminate|reflexivity].
+    - specialize (Ht k). destruct (live_track k st'); [|discriminate].
+      destruct (live_track k st); [reflexivity|]. intros _. exfalso. apply Ht; [discriminate|reflexivity].
   Qed.
 
   Lemma gc_ok : forall fuel st, WF st -> (lv st < fuel)%nat ->
@@ -1822,22 +1876,41 @@ Section Safe.
     destruct (find_orphan prog (shared st) st) as [t|] eqn:Hfo.
     2:{ exists st. split; [reflexivity|apply Guar_refl; exact H]. }
     destruct (find_orphan_spec _ _ _ Hfo) as (rel & Hin & Hlive).
-    assert (Ht : t < 1000).
+    assert (Hk : shkey t).
     { pose proof (wf_shared _ H) as F. unfold shared_ok in F. rewrite Forall_forall in F. exact (F (t, rel) Hin). }
-    destruct (del_user_track_G t st H Ht) as (st1 & E & C & G). rewrite E. cbn [rbind].
-    set (st2 := with_tracks (aset t None (tracks st1)) st1) in *.
-    destruct (IH st2 (proj1 G)) as (st' & E' & G').
-    - assert (Hsh : shared st2 = shared st) by exact (ca_shared _ _ C).
-      unfold lv. rewrite Hsh.
+    assert (Hdec : forall st2, shared st2 = shared st -> is_live st2 (t, rel) = false ->
+              (forall y, is_live st2 y = true -> is_live st y = true) -> (lv st2 < fuel)%nat).
+    { intros st2 Hsh Hd Hm. unfold lv. rewrite Hsh.
       assert (X : (length (filter (is_live st2) (shared st)) < length (filter (is_live st) (shared st)))%nat); [|unfold lv in Hlv; lia].
-      apply (filter_length_lt (is_live st) (is_live st2) (shared st) (t, rel) Hin Hlive).
-      + unfold is_live, st2. cbn [fst]. rewrite live_track_aset, N.eqb_refl. reflexivity.
-      + intros [t' r'] Hy. unfold is_live, st2 in *. cbn [fst] in *. rewrite live_track_aset in Hy.
-        destruct (N.eqb t' t); [discriminate|].
-        pose proof (tlive_live st st1 t' (ca_tracks _ _ C)) as Z.
-        destruct (live_track t' st1); [|discriminate]. destruct (live_track t' st); [reflexivity|].
-        exfalso. apply (proj1 Z); [discriminate|reflexivity].
-    - exists st'. split; [exact E'|eapply Guar_trans; eauto].
+      exact (filter_length_lt (is_live st) (is_live st2) (shared st) (t, rel) Hin Hlive Hd Hm). }
+    destruct (N.leb_spec 2000 t) as [Hge|Hlt].
+    - (* a signal object *)
+      unfold is_live, key_live in Hlive. cbn [fst] in Hlive.
+      destruct (N.leb_spec 2000 t) as [_|]; [|lia].
+      destruct (live_sig (t - 2000) st) as [go|] eqn:Hl; [|discriminate].
+      destruct (sig_destroy_full (t - 2000) go st H Hl) as (st1 & E & G & Hsh & Hsg & Htr & _). rewrite E. cbn [rbind].
+      destruct (IH st1 (proj1 G)) as (st' & E' & G').
+      + apply Hdec; [exact Hsh| |].
+        * unfold is_live, key_live. cbn [fst]. destruct (N.leb_spec 2000 t) as [_|]; [|lia].
+          rewrite Hsg, N.eqb_refl. reflexivity.
+        * intros [k r]. unfold is_live. cbn [fst]. apply key_live_mono; [|exact Htr].
+          intros g Hg. rewrite Hsg in Hg. destruct (N.eqb g (t - 2000)); [exfalso; apply Hg; reflexivity|exact Hg].
+      + exists st'. split; [exact E'|eapply Guar_trans; eauto].
+    - (* a trackable *)
+      assert (Ht : t < 1000) by (destruct Hk as [|[]]; [assumption|lia]).
+      destruct (del_user_track_G t st H Ht) as (st1 & E & C & G). rewrite E. cbn [rbind].
+      set (st2 := with_tracks (aset t None (tracks st1)) st1) in *.
+      destruct (IH st2 (proj1 G)) as (st' & E' & G').
+      + apply Hdec; [exact (ca_shared _ _ C)| |].
+        * unfold is_live, key_live. cbn [fst]. destruct (N.leb_spec 2000 t) as [|_]; [lia|].
+          unfold st2. rewrite live_track_aset, N.eqb_refl. reflexivity.
+        * intros [k r]. unfold is_live. cbn [fst]. apply key_live_mono.
+          -- intros g Hg. unfold live_sig in *. unfold st2 in Hg. cbn [sigs with_tracks] in Hg.
+             rewrite (ca_sigs _ _ C) in Hg. exact Hg.
+          -- intros t' Ht'. unfold st2 in Ht'. rewrite live_track_aset in Ht'.
+             destruct (N.eqb t' t); [exfalso; apply Ht'; reflexivity|].
+             apply (tlive_live st st1 t' (ca_tracks _ _ C)). exact Ht'.
+      + exists st'. split; [exact E'|eapply Guar_trans; eauto].
   Qed.
 
   Lemma gc_shared_ok st : WF st -> exists st', gc_shared prog st = Ok st' /\ Guar st st'.
